@@ -30,7 +30,7 @@ ASSUMPTIONS = [
   "documented configuration ValueErrors (frames syntaxes without fps, HH:MM:SS:FF with non-integer fps) are not failures",
 ]
 REQUIRED = ["roundtrips", "mode:representable", "mode:free", "cfg:none", "cfg:clock_time", "cfg:frames", "cfg:clock_time_with_frames",
-            "snapshots:compared", "class:ruby", "class:element-lang", "class:preserve-space"]
+            "snapshots:compared", "class:ruby", "class:element-lang", "class:preserve-space", "class:times-beyond-24h"]
 SHARD_TIMEOUT = {"quick": 900, "thorough": 7200}
 N = {"quick": 36, "thorough": 2400}
 
@@ -403,6 +403,19 @@ def run(ctx, params):
   for i in range(params["n"]):
     rng = ctx.rng("doc", params["shard"], i)
     adoc0, classes = model_docs.generate(rng, params["profile"], None, p_lang=0.15)
+    if adoc0.body is not None and i % 6 == 2:
+      # times of a day and more: TTML hours are unbounded (HH:MM:SS:FF labels must not wrap at 24 h)
+      off = rng.choice([86400, 86410, 360000, 90000])
+      adoc0.body.begin = (adoc0.body.begin or 0) + off
+      if adoc0.body.end is not None:
+        adoc0.body.end += off
+      for r in adoc0.regions:
+        if r.begin is not None:
+          r.begin += off
+        if r.end is not None:
+          r.end += off
+        r.anims = [(p_, None if b is None else b + off, None if e is None else e + off, v) for p_, b, e, v in r.anims]
+      ctx.count("class:times-beyond-24h")
     cfg_name, needs = CFGS[(params["shard"] + i) % 4]
     fps = rng.choice(FPS) if needs else None
     if cfg_name == "clock_time_with_frames" and fps.denominator != 1:
